@@ -117,7 +117,7 @@ def check(run):
                 # accepted idiom: a member that records when the resolver becomes free - it must be written with every
                 # host-name append and reset wherever the queue is emptied wholesale
                 w = q.writers_of_field(fx, fld)
-                same_block = all(any(ar.cfg.node_block(a.site) == ar.cfg.node_block(ap) for a in w.get(R + '::async_resolve', [])) for ap in appends)
+                same_block = all(any(q.paired(ar, a.site, ap) for a in w.get(R + '::async_resolve', [])) for ap in appends)
                 in_cancel = R + '::cancel' in w
                 if same_block and in_cancel:
                     run.ok('R5', 'compounding-origin', '%s<%s>' % (ar.norm, tag), ar.loc(), 'start = max(now, %s), written with every append and reset by cancel()' % fld.split('::')[-1])
